@@ -208,8 +208,8 @@ theorem rangeKeys_eq_filter (s e : Key) (c : KV) (hs : Sorted c) :
       · subst e'; exact hle
       · exact lexLe_of_lt (lexLt_of_le_of_lt hle (hx y e'))
 
-theorem memBound_nil_false (cfg : Cfg) (k : Key) : memBound cfg [] false k = true := by
-  simp [memBound, lexLe_nil, hasPrefix_nil]
+theorem memBound_nil_false (k : Key) : memBound [] false k = true := by
+  simp [memBound, lexLe_nil]
 
 theorem seekIdx_le (t : Key) (c : KV) : seekIdx t c ≤ c.length := by
   induction c with
@@ -219,9 +219,9 @@ theorem seekIdx_le (t : Key) (c : KV) : seekIdx t c ≤ c.length := by
     simp only [seekIdx, List.length_cons]
     split <;> omega
 
-theorem delLoop_eq (cfg : Cfg) (e : Key) (c : KV) :
+theorem delLoop_eq (e : Key) (c : KV) :
     ∀ (fuel j : Nat) (b : MBatch) (pos : Bool), j ≤ c.length → c.length - j < fuel →
-      memDelRangeLoop cfg e fuel ⟨c, (j : Int), pos⟩ (decide (j < c.length)) b =
+      memDelRangeLoop e fuel ⟨c, (j : Int), pos⟩ (decide (j < c.length)) b =
         ((c.drop j).takeWhile (fun x => lexLt x.1 e)).foldl (fun b x => b.del x.1) b := by
   intro fuel
   induction fuel with
@@ -238,14 +238,13 @@ theorem delLoop_eq (cfg : Cfg) (e : Key) (c : KV) :
       rw [hdrop]
       cases hk : lexLt c[j].1 e
       · simp [lexLe, hk, List.takeWhile]
-      · have hnext : (MIter.next cfg ⟨c, (j : Int), pos⟩) =
+      · have hnext : (MIter.next ⟨c, (j : Int), pos⟩) =
             (⟨c, ((j + 1 : Nat) : Int), true⟩, decide (j + 1 < c.length)) := by
           have h1 : ((j : Int) < (c.length : Int)) := by omega
           have h2 : (decide (0 ≤ (j : Int) + 1) && decide ((j : Int) + 1 < (c.length : Int))) =
               decide (j + 1 < c.length) := by
             rw [Bool.eq_iff_iff]; simp only [Bool.and_eq_true, decide_eq_true_eq]; omega
-          simp only [MIter.next, MIter.valid, h1, decide_true, Bool.not_true, Bool.and_false,
-            Bool.false_eq_true, if_false, h2]
+          simp only [MIter.next, MIter.valid, h1, if_true, h2]
           simp
         simp only [lexLe, hk, Bool.not_true, if_false, hnext, List.takeWhile, List.foldl_cons]
         exact ih (j + 1) _ true (by omega) (by omega)
@@ -254,28 +253,28 @@ theorem delLoop_eq (cfg : Cfg) (e : Key) (c : KV) :
       simp [memDelRangeLoop, List.drop_length]
 
 /-- `batch.DeleteRange` of db/memory: what gets recorded -/
-theorem mDelRange_eq (cfg : Cfg) (d : KV) (b : MBatch) (s e : Key) (hd : Sorted d) :
-    b.delRange cfg d s e =
+theorem mDelRange_eq (d : KV) (b : MBatch) (s e : Key) (hd : Sorted d) :
+    b.delRange d s e =
       ((b.flush d).filter (fun x => inRange s e x.1)).foldl (fun b x => b.del x.1) b := by
   have hc := sorted_flush hd b
   unfold MBatch.delRange
   simp only [MIter.mk', MIter.seek]
-  have hkeys : (b.flush d).filter (fun x => memBound cfg [] false x.1) = b.flush d := by
+  have hkeys : (b.flush d).filter (fun x => memBound [] false x.1) = b.flush d := by
     apply List.filter_eq_self.mpr
-    intro x _; exact memBound_nil_false cfg x.1
+    intro x _; exact memBound_nil_false x.1
   simp only [hkeys]
-  have := delLoop_eq cfg e (b.flush d) ((b.flush d).length + 1) (seekIdx s (b.flush d)) b true
+  have := delLoop_eq e (b.flush d) ((b.flush d).length + 1) (seekIdx s (b.flush d)) b true
     (seekIdx_le _ _) (by omega)
   rw [this, rangeKeys_eq_filter s e _ hc]
 
-theorem flush_mDelRange (cfg : Cfg) (d : KV) (b : MBatch) (s e : Key) (hd : Sorted d) :
-    (b.delRange cfg d s e).flush d = (b.flush d).delRange s e := by
-  rw [mDelRange_eq cfg d b s e hd, foldl_del_flush, foldl_del_filter]
+theorem flush_mDelRange (d : KV) (b : MBatch) (s e : Key) (hd : Sorted d) :
+    (b.delRange d s e).flush d = (b.flush d).delRange s e := by
+  rw [mDelRange_eq d b s e hd, foldl_del_flush, foldl_del_filter]
   rfl
 
-theorem wmOK_mDelRange (cfg : Cfg) (d : KV) {b : MBatch} (h : wmOK b) (s e : Key) (hd : Sorted d) :
-    wmOK (b.delRange cfg d s e) := by
-  rw [mDelRange_eq cfg d b s e hd]
+theorem wmOK_mDelRange (d : KV) {b : MBatch} (h : wmOK b) (s e : Key) (hd : Sorted d) :
+    wmOK (b.delRange d s e) := by
+  rw [mDelRange_eq d b s e hd]
   exact foldl_del_wmOK _ h
 
 end Juno.C15
